@@ -1,6 +1,8 @@
 package sim
 
 import (
+	"crypto/sha256"
+	"encoding/json"
 	"fmt"
 	"sync"
 
@@ -170,6 +172,26 @@ func TrafficWorld(audit bool) *Template {
 		r := w.Block(w.RegisterServiceTx(ChainAdmins["chainC"], "chainC", "open1", true, ""))[0]
 		mustOK(r, "open proposal")
 		data["openProposal"] = ProposalID(r)
+		// an open one-to-many transaction (two children begun, no receipt yet): its global record exists
+		{
+			// chainC:s1 has sent nothing to a1 or b1 yet: both children have index 1
+			grp := &pb.StringUint64Map{Keys: []string{a1, b1}, Vals: []uint64{1, 1}}
+			var gtxs []pb.Transaction
+			for i, to := range grp.Keys {
+				gtxs = append(gtxs, w.IBTP(ChainAdmins["chainC"], &pb.IBTP{From: c1, To: to, Index: grp.Vals[i], TimeoutHeight: 0, Proof: ProofHash(proof), Type: pb.IBTP_INTERCHAIN, Group: grp}, proof))
+			}
+			for i, r := range w.Block(gtxs...) {
+				mustOK(r, fmt.Sprintf("group child %d", i))
+			}
+			m := map[string]uint64{}
+			for i, k := range grp.Keys {
+				m[k] = grp.Vals[i]
+			}
+			jd, _ := json.Marshal(m)
+			h := sha256.Sum256(append([]byte(c1), jd...))
+			data["openGroup"] = types.NewHash(h[:]).String()
+			data["openGroupChild"] = IBTPID(c1, a1, 1)
+		}
 		// chainD: registered with two admins, a second (bindable) rule, then an approved update that drops the second
 		// admin - a chain whose admin set changed after registration
 		d1, d2 := KeyFor("chainD-admin-1"), KeyFor("chainD-admin-2")
